@@ -209,11 +209,64 @@ def run(chk, facts, tier, only=None):
             ms = [n["m"] for n in method_calls(h["body"], r"^deserialize_")]
             chk.expect(ms == [tgt], f"forward:{name}", f"{name} must forward to {tgt}; found {ms}")
 
+    def r6():
+        hs = [h for k, h in c.hir.items() if "bounded_vec" in k and k.endswith("::deserialize")]
+        if not hs:
+            raise AnchorMissing("BoundedVec's Deserialize impl not found")
+        h = hs[0]
+        chk.analysed(h["key"])
+        # the visitor's visit_seq is a nested item: its own HIR entry
+        vs = [hh for k, hh in c.hir.items() if "bounded_vec" in k and k.endswith("::visit_seq")]
+        if not vs:
+            raise AnchorMissing("BoundedVec's SeqVisitor::visit_seq not found")
+        v = vs[0]
+        chk.analysed(v["key"])
+        loops = [n for n in nodes(v["body"], "loop")]
+        if not loops:
+            raise AnchorMissing("visit_seq: element loop not found")
+        body = loops[0]
+        # the block that contains the push
+        blk = None
+        for b in [n for n in walk(body) if n.get("k") == "block"]:
+            items = list(b.get("stmts") or []) + ([b["e"]] if b.get("e") else [])
+            if any((st.get("e") if st.get("k") == "semi" else st).get("k") == "mcall" and (st.get("e") if st.get("k") == "semi" else st)["m"] == "push" for st in items):
+                blk = items
+        if blk is None:
+            raise AnchorMissing("visit_seq: `elements.push(element)` not found as a statement of the loop body")
+        push_at = [i for i, st in enumerate(blk) if (st.get("e") if st.get("k") == "semi" else st).get("k") == "mcall"
+                   and (st.get("e") if st.get("k") == "semi" else st)["m"] == "push"][0]
+        tests = []
+        for i, st in enumerate(blk[:push_at]):
+            s = st.get("e") if st.get("k") == "semi" else st
+            if s.get("k") == "if" and unblock(s["c"]).get("k") == "bin" and any(x.get("k") == "ret" for x in walk(s["t"])):
+                cnd = unblock(s["c"])
+                rhs = expr_path(cnd["b"]) or ""
+                lhs_len = any(x.get("k") == "mcall" and x["m"] == "len" for x in walk(cnd["a"]))
+                tests.append((cnd["op"], rhs.rsplit("::", 1)[-1], lhs_len))
+        want = {("Ge", "MAX_ALLOWED_LEN", True), ("Gt", "MAX_ALLOWED_ELEMENT_DATA_SIZE", False), ("Gt", "MAX_ALLOWED_TOTAL_DATA_SIZE", False)}
+        chk.expect(set(tests) == want, "bounded-vec:three-limit-tests-before-push",
+                   f"BoundedVec's visit_seq must reject, before pushing an element, when len() >= MAX_ALLOWED_LEN, when the element's data size "
+                   f"> MAX_ALLOWED_ELEMENT_DATA_SIZE and when the new total > MAX_ALLOWED_TOTAL_DATA_SIZE (so that exactly the vectors within the "
+                   f"limits are accepted); found tests {sorted(tests)}", ok_detail=str(sorted(tests)))
+        # the running total is the sum that was tested, and it is stored back
+        sums = [x for st in blk[:push_at] for x in walk(st) if x.get("k") == "bin" and x.get("op") == "Add"]
+        stores = [(expr_path(x["a"]), expr_path(x["b"])) for st in blk[:push_at + 1] for x in walk(st) if x.get("k") == "assign"]
+        lets = {st["pat"].get("n"): st.get("init") for st in blk[:push_at] if st.get("k") == "slet" and st.get("pat", {}).get("k") == "bind"}
+        tot_var = [n for n, ini in lets.items() if ini is not None and unblock(ini).get("k") == "bin" and unblock(ini).get("op") == "Add"]
+        okk = len(tot_var) == 1 and any(b == tot_var[0] for a, b in stores)
+        if okk:
+            add = unblock(lets[tot_var[0]])
+            ops = {expr_path(add["a"]), expr_path(add["b"])}
+            acc = [a for a, b in stores if b == tot_var[0]][0]
+            okk = acc in ops and len(ops) == 2
+        chk.expect(okk, "bounded-vec:running-total", "the total that is tested against the limit must be `total + this element's size`, and must be stored back as the new running total")
+
     for rid, desc, fn in (("C08.R1", "every wire read is preceded by tests of both the expected and the wire type", r1),
                           ("C08.R2", "fast paths are justified by tests of both component types and re-scoped per component", r2),
                           ("C08.R3", "tagged byte-buffer protocol: producers and all visitors agree on tags and layout", r3),
                           ("C08.R4", "primitive matrix, decoder rows", r4),
-                          ("C08.R5", "dispatch table of deserialize_any", r5)):
+                          ("C08.R5", "dispatch table of deserialize_any", r5),
+                          ("C08.R6", "bounded vectors: the three limit tests precede every push", r6)):
         if only and only != rid:
             continue
         chk.run_rule(rid, desc, fn)
